@@ -9,6 +9,7 @@ import (
 	"net/http/httptest"
 	"os"
 	"strings"
+	"time"
 
 	sse "github.com/tmaxmax/go-sse"
 
@@ -208,6 +209,9 @@ type ServCase struct {
 	// Before, if set, is a request served immediately before this one (same goroutine, another writer): nothing
 	// of it may carry over into this one.
 	Before *ServCase `json:"served_before,omitempty"`
+	// ReqCtx: 0 a live request context, 1 one that is already cancelled, 2 one whose deadline has passed when
+	// ServeHTTP is called (the client went away early): what ServeHTTP owes the writer and the provider is the same.
+	ReqCtx int `json:"request_context,omitempty"`
 }
 
 var headers = [][]string{nil, {""}, {"a"}, {"a\nb"}, {"x", "y"}, {"a\r"}, {" "}}
@@ -247,8 +251,21 @@ func judgeServer(c ServCase) string {
 	if h := headers[c.Header]; h != nil {
 		req.Header["Last-Event-Id"] = h
 	}
+	switch c.ReqCtx {
+	case 1:
+		ctx, cancel := context.WithCancel(req.Context())
+		cancel()
+		req = req.WithContext(ctx)
+	case 2:
+		ctx, cancel := context.WithDeadline(req.Context(), time.Unix(1, 0))
+		defer cancel()
+		req = req.WithContext(ctx)
+	}
 	srv.ServeHTTP(sh.Make(r), req)
 	desc := fmt.Sprintf("writer %s, Last-Event-Id %q, OnSession %s, provider mode %d", sh.Name, headers[c.Header], onSessionNames[c.OnSession], c.Provider)
+	if c.ReqCtx > 0 {
+		desc += fmt.Sprintf(", request context already %s", []string{"", "cancelled", "past its deadline"}[c.ReqCtx])
+	}
 	if b := c.Before; b != nil {
 		desc += fmt.Sprintf(" (served right after: Last-Event-Id %q, OnSession %s, provider mode %d)", headers[b.Header], onSessionNames[b.OnSession], b.Provider)
 	}
@@ -434,11 +451,13 @@ var Check = &sqrun.Check{ID: "C16", QuickBudget: 60, ThoroughBudget: 600,
 							if fail > 0 && (!Shapes[si].FlushReports || pm < 2 || hi > 1) {
 								continue
 							}
-							sc := ServCase{Shape: si, Header: hi, OnSession: oi, Provider: pm, HeaderVal: headers[hi], FailAt: fail}
-							cases++
-							nontriv++
-							if v := judgeServer(sc); v != "" {
-								report(v, sc)
+							for rc := 0; rc <= 2; rc++ {
+								sc := ServCase{Shape: si, Header: hi, OnSession: oi, Provider: pm, HeaderVal: headers[hi], FailAt: fail, ReqCtx: rc}
+								cases++
+								nontriv++
+								if v := judgeServer(sc); v != "" {
+									report(v, sc)
+								}
 							}
 						}
 					}
@@ -448,7 +467,7 @@ var Check = &sqrun.Check{ID: "C16", QuickBudget: 60, ThoroughBudget: 600,
 		samples = append(samples, SessCase{Shape: 2, Ops: []int{0, 3, 1}, FailAt: 4, Accept: 2}.String(), ServCase{Shape: 0, Header: 3, OnSession: 3, Provider: 1})
 		cov := ev.Coverage{"evaluations": cases, "distinct_nontrivial": nontriv, "exhaustive": true, "session_cases": sessCases, "server_cases": cases - sessCases,
 			"samples": samples,
-			"rule":    fmt.Sprintf("Session: every sequence of <= %d operations from %q x %d ResponseWriter shapes (Flusher, FlushError, both, each behind one/two Unwrap layers, none) x no fault / a fault at every individual call of the underlying writer (a failing Write with every short count 0..len, a failing flush), judged on the ordered log of Header/Write/WriteHeader/Flush calls of a recording writer. Server: ServeHTTP x the same shapes x %d Last-Event-Id header values x %d OnSession behaviours x 4 provider behaviours; and each such request served right after one of 5 other requests (rejected / accepted / refused by the provider, with a Last-Event-Id) on the same goroutine. Non-trivial = every faulted session case and every server case.", depth, opNames, len(Shapes), len(headers), len(onSessionNames))}
+			"rule":    fmt.Sprintf("Session: every sequence of <= %d operations from %q x %d ResponseWriter shapes (Flusher, FlushError, both, each behind one/two Unwrap layers, none) x no fault / a fault at every individual call of the underlying writer (a failing Write with every short count 0..len, a failing flush), judged on the ordered log of Header/Write/WriteHeader/Flush calls of a recording writer. Server: ServeHTTP x the same shapes x %d Last-Event-Id header values x %d OnSession behaviours x 4 provider behaviours x 3 request contexts (live, already cancelled, past its deadline); and each such request served right after one of 5 other requests (rejected / accepted / refused by the provider, with a Last-Event-Id) on the same goroutine. Non-trivial = every faulted session case and every server case.", depth, opNames, len(Shapes), len(headers), len(onSessionNames))}
 		return &sqrun.Outcome{Level: "fault_enumeration", Coverage: cov, Assumptions: []string{
 			"a writer that only offers the void http.Flusher cannot report flush failures; flush faults are injected only where FlushError exists (and there a swallowed failure is a violation)",
 			"'the header is set only once' is observed by removing Content-Type from the header map after the first successful flush and checking it never reappears",
